@@ -96,6 +96,21 @@ def check_log(obs, run, script):
 
 def run_case(item):
     from aiuti import asyncio as aiu
+    if item[0] == 'adaptive':
+        _, cfg, depth, keys = item
+        st = Stats()
+        last = None
+        for ev, obs, run in B.adaptive_programs(aiu, cfg, {}, depth, keys):
+            last = ev
+            st.executions += 1
+            st.transitions += len(ev) + sum(len(b['yields']) + 1 for b in obs.batches)
+            st.sig(('adaptive', tuple(ev), tuple(sorted(cfg.items())), B.describe(obs)))
+            st.count('adaptive_programs')
+            for kind, detail in check_log(obs, run, {}):
+                st.violation(kind, detail, {'events': ev, 'cfg': cfg, 'script': {}, 'form': 'class'})
+        st.sample({'mode': 'adaptive (arrivals around every armed timer deadline)', 'cfg': cfg, 'depth': depth,
+                   'example': last})
+        return st
     n, pat, gapsets, cfgs, maxdev, orders, durs, form, ninst = item
     st = Stats()
     nkeys = max(pat) + 1
@@ -153,6 +168,14 @@ def plan(tier):
                 step = max(1, len(gapsets) // 8)
                 for i in range(0, len(gapsets), step):
                     yield (n, pat, gapsets[i:i + step], cfgs, maxdev, orders, durs, form, 1)
+    # adaptive pass: same-key (and two-key) sequences with arrivals around every armed timer
+    for mbs in (1, 2, 3):
+        for R in (0.0, 2.0):
+            for idur in (0.0, 0.5):
+                yield ('adaptive', {'mbs': mbs, 'mcb': 2, 'R': R, 'order': 'fwd', 'item_dur': idur, 'ninst': 1},
+                       4 if tier == 'quick' else 5, (0,))
+            yield ('adaptive', {'mbs': mbs, 'mcb': 2, 'R': R, 'order': 'fwd', 'item_dur': 0.5, 'ninst': 1},
+                   3 if tier == 'quick' else 4, (0, 1))
     # two-instance worlds: same keys sent to two batchers alternately
     for n in (2, 3, 4) if tier == 'quick' else (2, 3, 4, 5):
         gaps = small
@@ -169,7 +192,7 @@ def main(tier):
     items = list(plan(tier))
     for st in common.pmap(run_case, items):
         total.merge(st)
-    nmax = max(i[0] for i in items)
+    nmax = max(i[0] for i in items if i[0] != 'adaptive')
     return common.finish(
         PID, tier, total, t0,
         rule=(f'all programs of 1..{nmax} calls (argument patterns over 3 symbols, gaps on a grid around '
